@@ -546,6 +546,7 @@ func (s *Session) Exec(line string) (obs string, viol string) {
 			for k := range b.modified {
 				cb.modified[k] = true
 			}
+			cb.byPointer = true
 			s.bases[int(num(2))] = &cb
 		} else {
 			delete(s.bases, int(num(2)))
